@@ -55,7 +55,7 @@ pub fn build(tape: &[u32], level: u8, opts: &GenOpts) -> (String, Idl) {
 }
 
 fn part_a(ctx: &mut Ctx, cases: u32) {
-    let opts = GenOpts::default();
+    let opts = GenOpts { big: true, ..GenOpts::default() };
     let r = pt::check(ctx, "c11a", cases, (tape_strategy(500), 0u8..3), |ctx, (tape, level)| {
         let (text, intended) = build(tape, *level, &opts);
         ctx.case(if nontrivial(&text, false, false) { Some(hash64(&text)) } else { None });
@@ -171,7 +171,7 @@ fn near_misses(tokens: &[String], f: &mut dyn FnMut(String, String) -> bool) {
 }
 
 fn part_b(ctx: &mut Ctx, texts: usize) {
-    let opts = GenOpts { max_types: 2, max_methods: 2, max_errors: 1, max_fields: 3, max_depth: 2, ..GenOpts::default() };
+    let opts = GenOpts { max_types: 2, max_methods: 2, max_errors: 1, max_fields: 3, max_depth: 2, ..GenOpts { big: true, ..GenOpts::default() } };
     let tapes = pt::draw(ctx.seed, "c11b", &(tape_strategy(200), 0u8..3), texts);
     let tapes = &tapes;
     let opts = &opts;
@@ -377,7 +377,7 @@ fn part_d(ctx: &mut Ctx, cases: u32) {
     }
     ctx.section("duplicates_systematic", json!({"subsets_of_9_kind_pairs": 511, "exhaustive": true}));
     // random: a valid generated IDL with 1-3 of its member names re-used by further members
-    let opts = GenOpts::default();
+    let opts = GenOpts { big: true, ..GenOpts::default() };
     let strat = (tape_strategy(300), prop::collection::vec((any::<prop::sample::Index>(), 0usize..3, any::<prop::sample::Index>()), 1..=3), 0u8..3);
     let r = pt::check(ctx, "c11d", cases, strat, |ctx, (tape, dups, level)| {
         let mut t = Tape::new(tape);
@@ -473,7 +473,7 @@ pub fn run(args: &Args) -> ! {
     part_d(&mut ctx, n);
     if ctx.tier == vl_model::Tier::Thorough && !ctx.failed() {
         let mut seeds: Vec<Vec<u8>> = corpus_texts().into_iter().map(|s| s.into_bytes()).collect();
-        let opts = GenOpts::default();
+        let opts = GenOpts { big: true, ..GenOpts::default() };
         for (tape, level) in pt::draw(ctx.seed, "c11-fuzz-seeds", &(tape_strategy(200), 0u8..3), 60) {
             seeds.push(build(&tape, level, &opts).0.into_bytes());
         }
